@@ -66,6 +66,34 @@ CheckQ(e) ==
 
 CheckLoc(e) == \A b \in DOMAIN e.r : Report(b, JudgeLoc(e.q, e.r[b]))
 
+\* ---- C11 proportionality: a single-address query asked n times; counts[b] = <<[rd, c]>> how often each address
+\* was the one served.  Candidates and weights come from the specification; the observed frequency of every
+\* candidate must be within 6 standard deviations of n * w / W (integer arithmetic, all products < 2^31).
+RECURSIVE SumWt(_)
+SumWt(S) == IF S = {} THEN 0 ELSE LET x == CHOOSE x \in S : TRUE IN x.wt + SumWt(S \ {x})
+CountOf(cs, rd) == LET m == {i \in 1..Len(cs) : cs[i].rd = rd} IN IF m = {} THEN 0 ELSE cs[CHOOSE i \in m : TRUE].c
+FreqOk(cnt, w, W, n) ==
+  LET d == cnt * W - n * w IN
+  /\ (w = 0 => cnt = 0)
+  /\ d <= 40000 /\ d >= -40000
+  /\ d * d <= 36 * n * w * (W - w)
+JudgeFreq(q, n, cs, other) ==
+  LET cl == ClientLoc(lines, q)
+      L == CHOOSE x \in cl.locs : TRUE
+      V == Visible(recs, L)
+      sufs == Suffixes(q.name)
+      ci == CutIndex(V, sufs)
+  IN IF ci = 0 \/ Cardinality(cl.locs) # 1 THEN "ok"
+     ELSE LET lk == Lookup(V, sufs, ci)
+              cands == {r \in lk.recs : r.ty = q.type}
+              W == SumWt(cands)
+          IN IF W = 0 \/ W > 12 \/ n > 20000 THEN "ok"            \* outside the arithmetic range: not judged
+             ELSE IF other # 0 THEN "C11:not-one-address"
+             ELSE IF \E i \in 1..Len(cs) : cs[i].rd \notin {c.rd : c \in cands} THEN "C11:served-undeclared"
+             ELSE IF \E c \in cands : ~FreqOk(CountOf(cs, c.rd), c.wt, W, n) THEN "C11:proportion"
+             ELSE "ok"
+CheckFreq(e) == \A b \in DOMAIN e.counts : Report(b, JudgeFreq(e.q, e.n, e.counts[b], e.other[b]))
+
 CheckFile(e) == \A b \in DOMAIN e.comperr : PrintT(<<"REJECT", l, b, "C01:compile-failed">>)
 
 Init == l = 1 /\ lines = {} /\ recs = {} /\ serial = 0 /\ memo = <<>>
@@ -83,6 +111,9 @@ Next ==
               /\ CheckQ(e)
               /\ memo' = IF e.q.cmp THEN memo ELSE (e.qid :> e.r) @@ memo
               /\ UNCHANGED <<lines, recs, serial>>
+         [] e.ev = "freq" ->
+              /\ CheckFreq(e)
+              /\ UNCHANGED <<lines, recs, serial, memo>>
          [] e.ev = "loc" ->
               /\ CheckLoc(e)
               /\ UNCHANGED <<lines, recs, serial, memo>>
